@@ -24,10 +24,14 @@ class HistoryMachine(RuleBasedStateMachine):
         self.dead = False
         self.CTX.shim.set(False)
 
+    FAILED = [False]
+
     def do(self, op):
         if self.dead:
             return
-        if time.time() > self.DEADLINE:
+        if time.time() > self.DEADLINE and not self.FAILED[0]:
+            # (after a failure the budget no longer applies: a wall-clock limit
+            # must never turn the replay of a failing history into a pass)
             self.dead = True
             self.STATS.budget_skipped += 1
             return
@@ -41,6 +45,7 @@ class HistoryMachine(RuleBasedStateMachine):
             self.STATS.skipped += 1
         except Violation as v:
             v.case = json.loads(canon(case))
+            self.FAILED[0] = True
             raise
 
     def teardown(self):
@@ -58,4 +63,5 @@ def replay_history(mod, case, ctx):
 
 def bind(machine_cls, mod, ctx, stats, deadline, phase):
     return type(machine_cls.__name__, (machine_cls,),
-                dict(MOD=mod, CTX=ctx, STATS=stats, DEADLINE=deadline, PHASE=phase))
+                dict(MOD=mod, CTX=ctx, STATS=stats, DEADLINE=deadline, PHASE=phase,
+                     FAILED=[False]))
